@@ -204,7 +204,16 @@ fn pure_events(tr: &mut Tr, args: &Args, rng: &mut Rng) {
                             Err(e) => json!({"T": fs(s.vapor().temperature.to_reduced()), "ok": false, "err": err_name(&e)}),
                         }
                     }).collect();
-                    tr.ev(json!({"ev":"PureDiagram","case":pm.name,"calibrated":pm.calibrated,"n":n,"ok":true,"Tmin_r":fs((tmin/tc).into_value()),"points":pts,"alone":alone,"crit":phase(&cp)}));
+                    // the same diagram requested with an initial value for the critical temperature (0.93 and 1.04 of the true one): the temperature
+                    // grid and the states must not depend on it
+                    let guessed: Vec<Value> = [0.93, 1.04].iter().map(|f| {
+                        match g(|| PhaseDiagram::pure(eos, tmin, n, Some(tc * *f), opts())) {
+                            Ok(dg) => json!({"f": fs(*f), "ok": true, "T": fv(dg.states.iter().map(|s| s.vapor().temperature.to_reduced()).collect::<Vec<_>>().iter()),
+                                             "p": fv(dg.states.iter().map(|s| r0(s.vapor().pressure(CT))).collect::<Vec<_>>().iter())}),
+                            Err(e) => json!({"f": fs(*f), "ok": false, "err": err_name(&e), "T": [], "p": []}),
+                        }
+                    }).collect();
+                    tr.ev(json!({"ev":"PureDiagram","case":pm.name,"calibrated":pm.calibrated,"n":n,"ok":true,"Tmin_r":fs((tmin/tc).into_value()),"points":pts,"alone":alone,"crit":phase(&cp),"guessed":guessed}));
                 }
                 Err(e) => tr.ev(json!({"ev":"PureDiagram","case":pm.name,"calibrated":pm.calibrated,"n":n,"ok":false,"err":err_name(&e),"points":[],"alone":[]})),
             }
